@@ -174,6 +174,11 @@ def alts_for(run, i):
     kind, subj, pid = run.accesses[i]
     if pid is None or kind in ("kill",):
         return ()
+    if run.plan:
+        # second fault: the statement quantifies over the two-fault sequences (deny at i, vanish at j > i)
+        if run.plan[-1][1] in ("eacces", "eperm"):
+            return ("vanish",)
+        return ()
     return DEVS
 
 
@@ -416,8 +421,8 @@ def run(ctx):
                 "OS access of the process the access refers to); distinct_nontrivial = number of distinct "
                 "(operation, first deviation kind, outcome class) triples observed",
         "exhaustive": True, "simk_binding": binding,
-        "bound": "all single deviations at every access of every operation; all pairs (any first, any later second) "
-                 + ("for every operation" if ctx.thorough else "for 9 short operations"),
+        "bound": "all single deviations {vanish, zombie, EACCES, EPERM, half-gone} at every access of every operation; all pairs "
+                 "(deny at i, vanish at j>i) " + ("for every operation" if ctx.thorough else "for 9 short operations"),
         "operations": len(ops),
         "accesses_per_operation": {"%s@%s" % k: v for k, v in sizes.items()},
         "outcomes_per_operation": {k: sorted(map(list, v[1])) for k, v in per_op.items()},
